@@ -32,5 +32,8 @@ def run(col, configs, tier):
         guarded(col, X.rule_hi_truncation, facts)
         guarded(col, X.rule_binary_factor, facts)
         guarded(col, X.rule_reparse_skips_zeros, facts)
+        if facts.config.startswith("compact"):
+            guarded(col, X.rule_exponent_narrowing, facts, ("bellerophon",))      # Bellerophon serves decimal under compact
+        guarded(col, X.rule_denormal_shift, facts, ("lemire",))
         guarded(col, X.rule_rte_window, facts)
         guarded(col, X.rule_error_accounting, facts)
